@@ -52,13 +52,26 @@ def thread_program():
         st.tuples(st.just("X"), st.integers(0, 7), st.just(0), st.just(0), st.just(0), st.just(b"")),
     ).map(list)
     # a few parses up front so that later ops find trees
-    head = st.lists(st.tuples(st.just("P"), st.integers(0, 3), st.integers(0, 3), st.integers(0, 1), st.just(0), text).map(list), min_size=1, max_size=3)
-    return st.tuples(head, st.lists(op, min_size=3, max_size=30)).map(lambda t: t[0] + t[1])
+    objdocs = st.sampled_from([d for d in DOCS if d[:1] == b"{" and d[-1:] == b"}"])
+    head = st.tuples(st.tuples(st.just("P"), st.just(0), st.integers(0, 3), st.integers(0, 1), st.just(0), objdocs).map(list),
+                     st.tuples(st.just("P"), st.just(1), st.integers(0, 3), st.integers(0, 1), st.just(0), objdocs).map(list),
+                     st.lists(st.tuples(st.just("P"), st.integers(0, 3), st.integers(0, 3), st.integers(0, 1), st.just(0), text).map(list), max_size=2)
+                     ).map(lambda t: [t[0], t[1]] + t[2])
+    util = st.tuples(st.just("U"), st.integers(0, 2), st.integers(0, 2), st.integers(0, 1), st.sampled_from([1, 1, 3, 5, 0, 2, 4]), st.sampled_from(POINTERS + PATCHES)).map(list)
+    # calls that every thread should make on its two object documents: both patch generators, sort, all print paths
+    core = st.lists(st.sampled_from([["U", 0, 1, 0, 1, b""], ["U", 0, 1, 1, 1, b""], ["U", 1, 0, 1, 1, b""], ["U", 1, 0, 1, 3, b""], ["U", 0, 1, 0, 3, b""],
+                                     ["U", 0, 1, 1, 5, b""], ["R", 0, 0, 1, 0, b""], ["R", 1, 1, 0, 0, b""], ["R", 0, 2, 1, 3, b""], ["R", 1, 3, 0, 0, b""],
+                                     ["D", 2, 0, 1, 0, b""], ["C", 0, 1, 1, 0, b""], ["E", 0, 0, 7, 0, b"new key"]]), min_size=2, max_size=5)
+    return st.tuples(head, core, st.lists(st.one_of(op, op, util), min_size=3, max_size=30)).map(lambda t: t[0] + t[1] + t[2])
 
 
 class C20(Prop):
     ID = "C20"
     NEEDS_TSAN = True
+    # a failure that depends on the schedule need not recur on every replay; a digest that differs from the solo run or a
+    # ThreadSanitizer report is never a false alarm, so one reproduction in eight fresh runs confirms it
+    CONFIRM_TRIES = 8
+    CONFIRM_NEED = 1
     RULE = ("2-6 thread programs per case, each a sequence of <= 33 library calls on thread-private slots and buffers: parse (ParseWithOpts / "
             "ParseWithLengthOpts with return_parse_end, valid and malformed texts, numbers of every print path), the four print variants, "
             "duplicate, compare, minify, edits (add/detach/replace/insert/set), JSON pointer get/find, patch generate/apply, merge patch "
